@@ -4,6 +4,7 @@ from __future__ import annotations
 
 import contextlib
 import io
+import re
 
 import hypothesis
 import numpy as np
@@ -18,7 +19,7 @@ from vf.runner import Collector
 
 PROPERTY = "C29"
 RULE = (
-    "Programs from the default program generator of C01 (all 11 op families, 1-6 statements over 1-2 leaves; the "
+    "Programs from the default program generator of C01 (all op families, 1-6 statements over 1-2 leaves; the "
     "map_blocks family weighted 6 instead of 2) whose leaves are da.from_array over RecordingSources (non-NumPy "
     "array-likes logging every __getitem__/__array__; with or without a storage grid exposed as .chunks/.shards, "
     "sometimes behind an adapter object, tokenizable or not, inline_array or not; 1 leaf in 8 is a plain ndarray and "
@@ -43,7 +44,11 @@ ASSUMPTIONS = [
     "spy functions compute the same values as vf.funcs.times_two/plus_one/negate; the NumPy twin calls them under phase 'numpy', which is not audited",
     "sync scheduler; cloudpickle round trips happen in-process (copies of a source report to the same log)",
 ]
-EXCLUDE = ("KF-layout-drift-over-shuffle", "KF-minmax-empty", "KF-pad-wide", "KF-tensordot-int-dtype", "KF-argext-ties-axis-none")
+# The default program generator is shared and grows (new ops bring new listed defects):
+# steer around EVERY region registered in vf.exclusions whose finding is open, as C01 does
+# (at the time of writing: KF-layout-drift-over-shuffle, KF-minmax-empty, KF-pad-wide,
+# KF-tensordot-int-dtype, KF-argext-ties-axis-none, KF-setitem-int-with-negstep).
+EXCLUDE = None
 WEIGHTS = dict(P.FAMILY_WEIGHTS, map_blocks=6)
 MODES = ("dtype", "infer", "blockwise")
 SPIES = ("spy_times_two", "spy_plus_one", "spy_negate")
@@ -162,6 +167,129 @@ def case_strategy(max_stmts=6):
         return {"program": prog, "inspect": inspect}, stats
 
     return strat()
+
+
+# ---------------------------------------------------------------------------
+# regions of listed known findings (case-level structural predicates; the search
+# steers around a region only while its finding is open in known_findings.json)
+
+INFER_MODES = ("infer", "blockwise")  # the user function goes through compute_meta
+
+
+def _getitem_meta(m, enc):
+    """Basic index applied to a meta: ints drop their axis, slices keep the axis as
+    it is (0 stays 0, >= 1 stays), None adds an axis of length 1."""
+    from vf.gen import indices as gidx
+
+    idx = gidx.dec(enc)
+    idx = list(idx if isinstance(idx, tuple) else (idx,))
+    n_real = sum(1 for i in idx if i is not None and i is not Ellipsis)
+    if Ellipsis in idx:
+        k = idx.index(Ellipsis)
+        idx[k : k + 1] = [slice(None)] * (m.ndim - n_real)
+    out, ax = [], 0
+    for i in idx:
+        if i is None:
+            out.append(1)
+        elif isinstance(i, slice):
+            out.append(m.shape[ax])
+            ax += 1
+        else:
+            ax += 1
+    out += list(m.shape[ax:])
+    return np.zeros(tuple(out), m.dtype)
+
+
+def meta_shapes(prog, vals):
+    """Over-approximation of the shape of every variable's ``_meta`` (raw or lowered):
+    the NumPy twin is run on zero-length stand-ins of the leaves (an axis of a meta is 0
+    exactly when it stems from a leaf axis); where that is not defined the result is
+    assumed non-empty unless the real value is empty."""
+    import warnings
+
+    L = len(prog["leaves"])
+    metas = [np.zeros((0,) * len(leaf["shape"]), dtype=leaf["dtype"]) for leaf in prog["leaves"]]
+    for k, s in enumerate(prog["stmts"]):
+        args = [metas[j] for j in s["args"]]
+        real = np.asarray(vals[L + k])
+        try:
+            if s["op"] == "getitem":
+                m = _getitem_meta(args[0], s["index"])
+            elif s["op"] in ("map_blocks", "rechunk", "rechunk_auto"):
+                m = args[0]
+            elif s["op"] == "sliding_window_view":
+                m = np.zeros(args[0].shape + (s["w"],), real.dtype)
+            elif s["op"] in P.REDUCTIONS:
+                # only the shape matters (min/max/arg* of an empty array are undefined in NumPy)
+                axis = tuple(s["axis"]) if isinstance(s["axis"], list) else s["axis"]
+                m = np.zeros(np.sum(np.zeros(args[0].shape), axis=axis, keepdims=s["keepdims"]).shape, real.dtype)
+            else:
+                with warnings.catch_warnings(), np.errstate(all="ignore"):
+                    warnings.simplefilter("ignore")
+                    m = np.asarray(P.OPS[s["op"]].np(s, args))
+            if m.ndim != real.ndim:
+                raise ValueError("rank")
+        except Exception:
+            m = np.zeros(tuple(min(1, n) for n in real.shape), real.dtype)
+        metas.append(m)
+    return [m.shape for m in metas]
+
+
+def region_0d_source(case):
+    """A 0-d recording (non-NumPy) source leaf: its meta is taken by x[()], the element itself."""
+    return any(len(leaf["shape"]) == 0 and (leaf.get("src") or {}).get("kind", "recording") == "recording" for leaf in case["program"]["leaves"])
+
+
+def region_infer(case):
+    """map_blocks without dtype= and meta=: apply_infer_dtype calls the function on a 1-element array."""
+    return any(s["op"] == "map_blocks" and s.get("mode", "dtype") == "infer" for s in case["program"]["stmts"])
+
+
+def region_nonempty_meta(case):
+    """A user function that goes through meta inference (map_blocks without dtype, da.blockwise
+    without meta) on an argument of rank >= 1 whose meta has no zero-length axis: every axis was
+    made by a keepdims reduction, expand_dims / None index, ravel / reshape of a 0-d value,
+    stack of 0-d values ... rather than inherited from a source axis."""
+    prog = case["program"]
+    stmts = [s for s in prog["stmts"] if s["op"] == "map_blocks" and s.get("mode", "dtype") in INFER_MODES]
+    if not stmts:
+        return False
+    with S.phase("numpy"):
+        shapes = meta_shapes(prog, P.eval_np(prog))
+    return any(len(shapes[s["args"][0]]) >= 1 and 0 not in shapes[s["args"][0]] for s in stmts)
+
+
+REGIONS = {
+    "KF-meta-0d-source-read": region_0d_source,
+    "KF-map-blocks-dtype-inference-calls-func": region_infer,
+    "KF-nonempty-meta-feeds-compute-meta": region_nonempty_meta,
+}
+
+
+# bucket regexes of the three findings (the same ones known_findings.json uses)
+REGION_BUCKETS = {
+    "KF-meta-0d-source-read": r"^source-read\|getitem\|via=_utils\.py:meta_from_array\|0-d-source$",
+    "KF-map-blocks-dtype-inference-calls-func": r"^spy-call\|via=_core_utils\.py:apply_infer_dtype$",
+    "KF-nonempty-meta-feeds-compute-meta": r"^spy-call\|via=_utils\.py:compute_meta\[nonempty-arg-meta:",
+}
+
+
+def _register_regions():
+    from vf import known
+
+    for fid, fn in REGIONS.items():
+        known.PREDICATES["c29:" + fid] = fn
+
+
+_register_regions()
+
+
+def excluded(case):
+    open_ids = exclusions._open_ids()
+    for fid, fn in REGIONS.items():
+        if fid in open_ids and fn(case):
+            return fid
+    return None
 
 
 # ---------------------------------------------------------------------------
@@ -419,11 +547,19 @@ def run_shard(spec, seed):
         if fid:
             col.exclude(fid)
             return
+        fid = excluded(case)
+        if fid:
+            col.exclude(fid)
+            return
         status, fails, labs = check(case, vals)
         if status.startswith("rejected"):
             col.reject(status[:120])
             return
         labels = progrun.base_labels(prog) + list(labs)
+        for b, _ in fails:
+            for fid, rx in REGION_BUCKETS.items():
+                if re.search(rx, b) and not REGIONS[fid](case):
+                    labels.append("region-predicate-miss:" + fid)  # a listed-kind failure outside its region: refine the predicate
         if status == "refused":
             labels.append("refused-NotImplementedError")
         col.case(case, nontrivial(case, labels), labels)
@@ -450,6 +586,7 @@ _REQ = ["acc:" + n for n in ACCESSORS] + [
     "numpy-leaf",
     "adapter",
     "read-at-execute",
-    "empty-meta-request",
 ]
+if "KF-map-blocks-dtype-inference-calls-func" in exclusions._open_ids():
+    _REQ.remove("map_blocks:infer")  # that region is steered around while the finding is open
 REQUIRED_CLASSES = {"quick": list(_REQ), "thorough": list(_REQ)}
